@@ -139,11 +139,11 @@ theorem reach_sound {c : Cfg} {s s' : St} {tr : List Ev} {o : Out} (hx : Exec c 
     · exact mem_uni.mpr (Or.inr h1)
     · exact mem_uni.mpr (Or.inr h1)
     · exact mem_uniR.mpr (Or.inr h1)
-  | @ifnullT v t e s tr s' o hl hc _ ih =>
+  | @ifnullT v t e s tr s' o hl _ ih =>
     intro S hok hs
     simp only [reach, Bool.and_eq_true] at hok
-    have hm : s ∈ S.filter (fun s => s.st v != .live && s.st v != .closed) := by
-      simp [List.mem_filter, hs, hl, hc]
+    have hm : s ∈ S.filter (fun s => !(s.st v).nonNull) := by
+      simp [List.mem_filter, hs, hl]
     have h1 := ih _ hok.1 hm
     cases o <;> simp only [reach, Res.has] at h1 ⊢
     · exact mem_uni.mpr (Or.inl h1)
@@ -250,7 +250,7 @@ theorem exec_fold {c : Cfg} {s s' : St} {tr : List Ev} {o : Out} (hx : Exec c s 
   | seqN _ _ ih1 ih2 => rw [List.foldl_append, ← ih1, ← ih2]
   | seqX _ _ ih => exact ih
   | iteT _ ih | iteF _ ih => exact ih
-  | ifnullT _ _ _ ih => exact ih
+  | ifnullT _ _ ih => exact ih
   | ifnullF _ _ ih => exact ih
   | ifcodeT _ _ ih | ifcodeF _ _ ih => simpa [List.foldl_cons] using ih
   | loopStop => rfl
